@@ -52,7 +52,7 @@ CHECKS["C04"] = ("bitshare", "exploration",
 
 CHECKS["C03"] = ("clones", "exploration",
    "deterministic simulation of a clone tree: up to six replicas share reference-counted storage; a seeded scheduler interleaves clone (Clone and c_api::xeh_snapshot) / drop / submit / single-instruction step / reverse-step / save / rollback / private-source actions; invariant after every event: every other replica and every saved snapshot renders unchanged; history check: replicas that reach the same script point agree on result, output and state",
-   "Seeded exploration of who-acts-when over replicas that follow one script at their own pace, down to single VM instructions, with siblings dropped at arbitrary instants so that survivors flip onto the unique-owner paths. Snapshot immutability is checked after every action against a full rendering (machine state, contexts, flows, code and dictionary beyond boot, pending output) plus a probe of host objects; determinism of re-running is checked by comparing every replica that reaches a script point with the first one that got there.",
+   "Seeded exploration of who-acts-when over replicas that follow one script at their own pace, down to single VM instructions, with siblings dropped at arbitrary instants so that survivors flip onto the unique-owner paths. Snapshot immutability is checked after every action against a full rendering (machine state, contexts, flows, code and dictionary beyond boot, pending output) plus a probe of host objects; determinism of re-running is checked by comparing every replica that reaches a script point with the first one that got there. About one case in 30 000 is a long recording: a snapshot taken while the reverse log is live, then 1.5-2 million recorded instructions (5-8 million log entries) on both copies, with the length of the log compared as well.",
    "A second engine (repl) drives the real REPL run_line and trial-mode hinter through hook H3 on two sessions: typed text leaves no trace in the live state, a snapshot slot changes only when run_line replaces it, /rollback gives back the popped snapshot, and a line rejected at build time leaves the session like one that never saw it. Trusted: harness, verif_hooks renderings (values by content). Output printed twice after reverse steps is not compared (reverse stepping does not un-print; C02 excludes output). The d2 canvas (Cell::AnyRc) being shared between clones is a listed known finding, classified separately so that it suppresses nothing else. The words the property excludes are not generated.",
    "DESIGN.md §5 C03")
 
